@@ -12,7 +12,7 @@ pass the cut (engine/stream.py).  Contracts:
 import z3
 from engine.api import Pack
 from engine import layout, cfront
-from engine.csym import Contract, as_int, const_int, Unsupported
+from engine.csym import Contract, as_int, const_int, Unsupported, LoopSpec
 from engine.mem import Ptr, Opaque, StructObj, Cell, ArrObj
 
 P = Pack("C07", ["src/simulationarchive.c", "src/output.c", "src/binarydiff.c"], "archive index under truncation")
@@ -147,7 +147,18 @@ def _(v):
             v.loop(fn, o, invariant=blobs_inv)
             v.eng.loopspecs[(fn, o)].havoc_hook = make_hook(sap)
         elif info["kind"] == "DoStmt":
-            v.loop(fn, o, invariant=fields_inv)
+            inner = LoopSpec(fields_inv)
+
+            def fields_loop(eng_, st, n, cond, inc, body, inner=inner, o=o):
+                # entry contract of the field loop of blob i: later blobs only store the fields that differ from blob 0, so the
+                # time index of blob i must start out as the time of blob 0 (a blob without a `t` field has that time)
+                i = eng_.local(st, "i")
+                tp = st.mem.get(sap.obj).fields["t"]
+                tarr = eng_._leaf_array(st.mem.get(tp.obj), ())
+                eng_.oblige(st, "index_builder.blob_start.time_index_defaults_to_first_snapshot",
+                            z3.Implies(as_int(i) > 0, z3.Select(tarr, as_int(i)) == z3.Select(tarr, 0)), "loop", n)
+                return eng_.loop_invariant(st, n, cond, inc, body, True, inner, fn, o)
+            v.loop(fn, o, invariant=fields_loop, mode="custom")
     v.call(fn, sap, Ptr(None, (), True), wp)
     # ---- postconditions on every path that returns
     warn = v.read(wp)
